@@ -124,6 +124,15 @@ def assignGo : List Sib → List Sib → List Sib
 
 def assignAll (l : List Sib) : List Sib := assignGo [] l
 
+/-- `ComposeEdif._get_name_string_(obj)` for a named object that has an identifier: `(rename?, text)`;
+    the text is the identifier itself, or `rename <identifier> "<original name>"`. -/
+def nameString (x : Sib) : Option (Bool × Str) :=
+  match x.ident with
+  | none => none
+  | some i =>
+      if x.name == i && !x.rename then some (false, i)
+      else some (true, ['r', 'e', 'n', 'a', 'm', 'e', ' '] ++ i ++ [' ', '"'] ++ x.name ++ ['"'])
+
 /-- all fuel-bounded recursions of the pre-pass ended by themselves (reported by the driver). -/
 def assignGoFinished : List Sib → List Sib → Bool
   | _, [] => true
